@@ -174,12 +174,8 @@ class SequenceContainer(common.Parseable, common.XmlObject):
                 em.LongDescription(self.long_description)
             )
 
-        if (
-                (self.restriction_criteria and not self.base_container_name) or
-                (not self.restriction_criteria and self.base_container_name)
-        ):
-            raise ValueError("The restriction_criteria and base_container_name must be specified together or "
-                             "not at all.")
+        if self.restriction_criteria and not self.base_container_name:
+            raise ValueError("The restriction_criteria can only be specified together with a base_container_name.")
 
         if len(self.restriction_criteria) == 1:
             restrictions = self.restriction_criteria[0].to_xml(elmaker=elmaker)
@@ -189,12 +185,11 @@ class SequenceContainer(common.Parseable, common.XmlObject):
             )
 
         if self.base_container_name:
-            sc.append(
-                em.BaseContainer(
-                    em.RestrictionCriteria(restrictions),
-                    containerRef=self.base_container_name
-                ),
-            )
+            base_container = em.BaseContainer(containerRef=self.base_container_name)
+            if self.restriction_criteria:
+                # RestrictionCriteria is optional: a container may inherit unconditionally
+                base_container.append(em.RestrictionCriteria(restrictions))
+            sc.append(base_container)
 
         entry_list = em.EntryList()
         for entry in self.entry_list:
